@@ -14,9 +14,9 @@ from tsv.props import common
 
 NAME = 'qq'
 ATTACH = ['', ' ', '  ', '\t', '\n', ' \n', '\n ', ' \t\n\t ']
-DETACH = ['\n\n', ' \n \n', ',', '.', '%c\n', '\n\n\n', ' \n\n ', '!']
+DETACH = ['\n\n', ' \n \n', ',', '.', '%c\n', '\n\n\n', ' \n\n ', '!', '%\n', '%\n  ', ' %\n']
 ATTACH_R = ['', ' ', '\n', ' \n ']
-DETACH_R = ['\n\n', ',', '%c\n']
+DETACH_R = ['\n\n', ',', '%c\n', '%\n']
 BRACE_BODIES = ['a', '', 'x y', '{b}', ']', '[', '[x', 'a]b', '\\bar{z}', 'a\nb',
                 '$m$', '\\%', '{]}', '[[', '\\bar[o]{z}', ' ', '\n', '%c\n',
                 'p q {r} \\bar{z} ] s', 'a b c d ] e [ f', '{u} {v} ] {w}']
@@ -93,9 +93,9 @@ class C09(Prop):
     level = 'exploration'
     rule = ('cases: command \\qq (not in the signature table) with 0..3 bracket '
             'groups then 0..4 brace groups, a separator before each group '
-            '(8 attaching, 8 detaching kinds), group bodies with nested and '
+            '(8 attaching, 11 detaching kinds incl. the empty comment), group bodies with nested and '
             'unbalanced foreign delimiters, 8 tails, 15 enclosing contexts; '
-            'exhaustive for <= 3 groups over 4+3 separators x all contexts '
+            'exhaustive for <= 3 groups over 4+4 separators x all contexts '
             'with simple bodies, seeded random beyond; plus bare brackets in '
             'text in every context. non-trivial = at least one group; '
             'distinct = by content')
@@ -111,9 +111,9 @@ class C09(Prop):
     min_nontrivial = 2000
     budget_s = {'quick': 240, 'thorough': 2400}
     exhaustive = {
-        'quick': 'all (kinds, separators) for <= 3 groups over 4 attaching + 3 '
+        'quick': 'all (kinds, separators) for <= 3 groups over 4 attaching + 4 '
                  'detaching separators in all 15 contexts',
-        'thorough': 'all (kinds, separators) for <= 3 groups over 4 attaching + 3 '
+        'thorough': 'all (kinds, separators) for <= 3 groups over 4 attaching + 4 '
                     'detaching separators in all 15 contexts, 3 body sets',
     }
 
